@@ -52,6 +52,9 @@ struct St {
     readers: u32,
     tasks_created: Vec<u64>,
     tasks_ended: BTreeSet<u64>,
+    /// tasks that were resumed and neither reached a schedule point nor ended: they wait for something that is
+    /// not a schedule point (in this harness: for the client, which never answers). They keep what they hold.
+    env_blocked: BTreeSet<Key>,
     main_done: bool,
     published: u32,
     /// (file id, version) of every publication, in the order they were sent
@@ -82,6 +85,7 @@ impl Shared {
     fn park(&self, key: Key, what: Pending) {
         let mut st = self.m.lock().unwrap();
         st.parked.insert(key, what);
+        st.env_blocked.remove(&key);
         if st.running == Some(key) {
             st.running = None;
         }
@@ -159,6 +163,7 @@ impl Shared {
                     Ev::TaskEnd(raw) => {
                         let id = task_of(&mut ids.lock().unwrap(), raw);
                         st.tasks_ended.insert(id);
+                        st.env_blocked.remove(&key);
                         if st.running == Some(key) {
                             st.running = None;
                         }
@@ -177,7 +182,8 @@ impl Shared {
 fn enabled(p: Pending, st: &St) -> bool {
     match p {
         Pending::MsgStart(_) | Pending::TaskStart => true,
-        Pending::MainFinish => st.tasks_ended.len() == st.tasks_created.len() && st.pending_starts == 0,
+        // (a task that waits for the client for ever has not ended and never will: it does not keep the main loop)
+        Pending::MainFinish => st.tasks_ended.len() + st.env_blocked.len() == st.tasks_created.len() && st.pending_starts == 0,
         Pending::VfsWrite => !st.writer && st.readers == 0,
         // std's RwLock on this platform prefers writers: a thread that has arrived at write() while the lock
         // is held is a waiting writer, and new readers queue behind it (also a reader re-entering the lock)
@@ -196,6 +202,42 @@ pub const REQUESTS: &[&str] = &[
     "textDocument/documentLink",
     "textDocument/foldingRange",
 ];
+
+/// Client capabilities with every "the server may ask / refresh / register" switch on.
+pub fn full_client_capabilities() -> Value {
+    json!({
+        "workspace": {
+            "applyEdit": true,
+            "workspaceEdit": { "documentChanges": true },
+            "didChangeConfiguration": { "dynamicRegistration": true },
+            "didChangeWatchedFiles": { "dynamicRegistration": true, "relativePatternSupport": true },
+            "symbol": { "dynamicRegistration": true },
+            "executeCommand": { "dynamicRegistration": true },
+            "workspaceFolders": true,
+            "configuration": true,
+            "semanticTokens": { "refreshSupport": true },
+            "codeLens": { "refreshSupport": true },
+            "inlayHint": { "refreshSupport": true },
+            "inlineValue": { "refreshSupport": true },
+            "diagnostics": { "refreshSupport": true }
+        },
+        "textDocument": {
+            "synchronization": { "dynamicRegistration": true, "willSave": true, "willSaveWaitUntil": true, "didSave": true },
+            "publishDiagnostics": { "relatedInformation": true, "versionSupport": true, "codeDescriptionSupport": true, "dataSupport": true },
+            "completion": { "dynamicRegistration": true, "completionItem": { "snippetSupport": true } },
+            "hover": { "dynamicRegistration": true, "contentFormat": ["markdown", "plaintext"] },
+            "definition": { "dynamicRegistration": true, "linkSupport": true },
+            "references": { "dynamicRegistration": true },
+            "documentSymbol": { "dynamicRegistration": true, "hierarchicalDocumentSymbolSupport": true },
+            "documentLink": { "dynamicRegistration": true, "tooltipSupport": true },
+            "foldingRange": { "dynamicRegistration": true, "lineFoldingOnly": true },
+            "inlayHint": { "dynamicRegistration": true },
+            "diagnostic": { "dynamicRegistration": true, "relatedDocumentSupport": true }
+        },
+        "window": { "workDoneProgress": true, "showMessage": { "messageActionItem": { "additionalPropertiesSupport": true } }, "showDocument": { "support": true } },
+        "general": { "positionEncodings": ["utf-16"] }
+    })
+}
 
 /// Message menu: 0 = didChange of the root document, 1 = didOpen/didChange of a second document
 /// (which becomes the root, so that the previous root leaves the workspace), 2.. = the request kinds,
@@ -266,6 +308,10 @@ pub fn execute(scenario: &[usize], prefix: &[usize], dir: &PathBuf) -> Outcome {
             let r = std::panic::catch_unwind(AssertUnwindSafe(|| {
                 let (mut mainloop, _client) = MainLoop::new_server(Server::new_router);
                 let router = mainloop.get_mut();
+                // the handshake of an editor that supports everything a server may ask a client for
+                let init: AnyRequest = serde_json::from_value(json!({ "id": -1, "method": "initialize", "params": { "processId": null, "rootUri": null, "capabilities": full_client_capabilities() } })).unwrap();
+                let _ = handle2.block_on(async { tokio::time::timeout(Duration::from_secs(10), router.call(init)).await });
+                let _ = router.notify(serde_json::from_value::<AnyNotification>(json!({ "method": "initialized", "params": {} })).unwrap());
                 let doc = json!({ "uri": uri });
                 let mut futures = Vec::new();
                 let mut version = 1;
@@ -364,6 +410,7 @@ pub fn execute(scenario: &[usize], prefix: &[usize], dir: &PathBuf) -> Outcome {
     // the controller
     let mut out = Outcome::default();
     let machinery_deadline = Duration::from_secs(15);
+    let env_deadline = Duration::from_secs(6);
     let mut depth = 0usize;
     loop {
         let t0 = Instant::now();
@@ -372,11 +419,21 @@ pub fn execute(scenario: &[usize], prefix: &[usize], dir: &PathBuf) -> Outcome {
         while !(st.running.is_none() && st.pending_starts == 0) {
             let (g, to) = shared.cv.wait_timeout(st, Duration::from_millis(200)).unwrap();
             st = g;
+            if to.timed_out() && t0.elapsed() > env_deadline {
+                if let Some(k @ Key::Task(_)) = st.running {
+                    // the lock model had this task enabled, handlers are straight-line between schedule points and
+                    // take microseconds: it waits for something that is not a schedule point - the client's answer
+                    // to a request of the server, which this harness never gives. That alone is not a verdict (the
+                    // main loop and the other tasks may go on); what the task holds meanwhile stays held.
+                    st.env_blocked.insert(k);
+                    st.running = None;
+                    st.log.push(format!("{k:?}:blocked-outside-schedule-points"));
+                    continue;
+                }
+            }
             if to.timed_out() && t0.elapsed() > machinery_deadline {
                 st.abandon = true;
-                // every lock the model knows was free for this thread, handlers are straight-line between
-                // schedule points and take microseconds: it waits on something else (an unhooked wait that
-                // is never satisfied) or does not terminate - a liveness failure either way
+                // the main loop (or a task that has not started) does not come back: a liveness failure
                 out.problem = Some((
                     "stall".into(),
                     format!("a resumed thread neither reached its next schedule point nor finished within {machinery_deadline:?} although the lock model had it enabled; running={:?} log tail={:?}", st.running, st.log.iter().rev().take(6).collect::<Vec<_>>()),
@@ -397,10 +454,27 @@ pub fn execute(scenario: &[usize], prefix: &[usize], dir: &PathBuf) -> Outcome {
         let en: Vec<(Key, Pending)> = st.parked.iter().filter(|(_, p)| enabled(**p, &st)).map(|(k, p)| (*k, *p)).collect();
         // canonical state for reporting / pruning
         out.states.push(format!("{:?}|{:?}|w{}r{}s{}", st.parked, st.pcs, st.writer, st.readers, st.snapshots));
+        if en.is_empty() && !st.env_blocked.is_empty() {
+            // give the tasks judged to be waiting outside the schedule points the full deadline to prove otherwise
+            let waited = Instant::now();
+            let before = st.env_blocked.clone();
+            while st.env_blocked == before && waited.elapsed() < machinery_deadline {
+                let (g, _) = shared.cv.wait_timeout(st, Duration::from_millis(200)).unwrap();
+                st = g;
+            }
+            if st.env_blocked != before {
+                drop(st);
+                continue;
+            }
+        }
         if en.is_empty() {
             out.deadlock = Some(format!(
-                "no parked thread is enabled: {:?}; file-table writer={} readers={} snapshots alive={}",
-                st.parked, st.writer, st.readers, st.snapshots
+                "no parked thread is enabled: {:?}; file-table writer={} readers={} snapshots alive={}{}",
+                st.parked,
+                st.writer,
+                st.readers,
+                st.snapshots,
+                if st.env_blocked.is_empty() { String::new() } else { format!("; waiting outside the schedule points (for the client, which is served by the main loop): {:?}", st.env_blocked) }
             ));
             st.abandon = true;
             shared.cv.notify_all();
@@ -624,7 +698,8 @@ impl Engine for C08 {
         vec![
             "locks that are not hooked (salsa's per-slot locks, the tokio pool queue, the unbounded client channel, the published-files mutex taken only by diagnostics tasks) are leaf locks".into(),
             "the file-table lock is modelled as writer-preferring (std::sync::RwLock on Linux: once a writer waits, new readers - including a reader re-entering the lock - queue behind it), which is the behaviour std documents as possible and this platform exhibits".into(),
-            "the lock model (file-table writer/readers, snapshots alive) is asserted against reality at every Acquired/Done event and by a 15 s watchdog on every resumed thread; a disagreement is a machinery error, not a verdict".into(),
+            "the lock model (file-table writer/readers, snapshots alive) is asserted against reality at every Acquired/Done event; a disagreement is a machinery error, not a verdict".into(),
+            "every execution starts with the handshake of a client that announces every capability; the client never answers a request of the server: a resumed task that neither reaches a schedule point nor ends within 6 s is modelled as waiting outside the schedule points (it keeps what it holds, the others go on; no verdict by itself), the main loop not coming back within 15 s is the verdict `stall`".into(),
             "the async-lsp layers of main.rs other than the router (ConcurrencyLayer etc.) and memory-ordering effects are not explored".into(),
         ]
     }
